@@ -153,6 +153,15 @@ AppendVerdict(g, c, t, ttl, meta, hash, ok, id, f) ==
                      meta |-> meta, hash |-> hash]
              THEN (IF t = XC /\ f.ttl # Forever THEN {"C07"} ELSE {"C01", "C12"}) ELSE {})
 
+(* C20 (C05 for NUL): an import is stored as is, or rejected whole when it cannot be stored consistently: *)
+(* NUL in the topic, or another frame (other context or topic) already present under the id            *)
+ImportConflict(g, id, f) == id \in Present(g) /\ (g.acc[id].ctx # f.ctx \/ g.acc[id].topic # f.topic)
+ImportVerdict(g, id, f, ok) ==
+  LET nul == f.topic \in NulTopics IN
+  IF ok THEN (IF nul THEN {"C05", "C20"} ELSE {})
+             \cup (IF ImportConflict(g, id, f) /\ ~MayBeCollected(g, id) THEN {"C20", "C05"} ELSE {})
+  ELSE IF nul \/ ImportConflict(g, id, f) THEN {} ELSE {"C20"}
+
 (* C05 C04: the three partitions in lock-step at a quiescent point;                *)
 (* d = [stream: seq of ids, idxT: seq of <<ctx,topic,id>>, idxC: seq of <<ctx,id>>, *)
 (*      contexts: seq of ids]                                                       *)
